@@ -5,6 +5,7 @@ import numpy as np
 
 from .. import core, registry
 from ..translate import etdrk as tr_etdrk
+from ..translate import nonlin as tr_nonlin
 
 ID = "C08"
 PROPS_FILE = "C08"
@@ -13,11 +14,21 @@ RULE = ("correspondence: shared exact suites (every nonlinear term vs the extrac
         "white-noise states x random and exhaustive (small N) shifts (Kolmogorov forcing: shifts along the invariant direction only); axis permutations for the isotropic steppers with velocity "
         "channels permuted along (vorticity: pseudo-scalar sign; odd-order symbols: Nyquist-free states on even grids); 1D embedding along every axis with the corresponding coefficients. "
         "Grid sizes include N where the dealiasing cutoff is fractional (32) and odd N. Non-trivial: random states, non-zero shifts; distinct by input hash.")
+TRUSTED_EXTRA = ["harness/translate/etdrk.py (stage programs) and harness/translate/nonlin.py (the nonlinear terms whose permutation equivariance is proved for the source text)"]
 ASSUMPTIONS = ["rfftn/irfftn of C04; jnp.roll is the grid translation"]
 
 
 def translate(ctx):
-    tr_etdrk.run()
+    """Gen/ETDRK.v (stage programs) and Gen/NonlinFuns.v (the nonlinear terms of the source, theorem
+    C08_code_terms_commute_with_axis_permutations through Tie/NonlinTie.v); both are always attempted"""
+    errors = []
+    for name, tr in (("etdrk", tr_etdrk), ("nonlin", tr_nonlin)):
+        try:
+            tr.run()
+        except Exception as e:
+            errors.append(f"{name}: {type(e).__name__}: {e}")
+    if errors:
+        raise RuntimeError("; ".join(errors))
 
 
 def _ex():
